@@ -433,7 +433,10 @@ class Table(Vector):
 				cols = list(self._underlying)
 				value._name = self._underlying[col_idx_indexed]._name  # Preserve original name
 				cols[col_idx_indexed] = value
+				old_tuple_id = id(self._underlying)
 				object.__setattr__(self, '_underlying', tuple(cols))
+				_ALIAS_TRACKER.unregister(self, old_tuple_id)
+				_ALIAS_TRACKER.register(self, id(self._underlying))
 				object.__setattr__(self, '_column_map', self._build_column_map())
 				return
 			
@@ -454,7 +457,10 @@ class Table(Vector):
 				cols = list(self._underlying)
 				value._name = self._underlying[col_idx]._name  # Preserve original name
 				cols[col_idx] = value
+				old_tuple_id = id(self._underlying)
 				object.__setattr__(self, '_underlying', tuple(cols))
+				_ALIAS_TRACKER.unregister(self, old_tuple_id)
+				_ALIAS_TRACKER.register(self, id(self._underlying))
 				
 				# Rebuild column map to reflect any structural changes
 				object.__setattr__(self, '_column_map', self._build_column_map())
